@@ -82,9 +82,9 @@ def run_shard(spec, R):
         if cls is darsia.OpticalImage and rng.random() < 0.5:
             img.color_space = str(rng.choice(["BGR", "HSV"]))
         case = {**desc, "class": cls.__name__, "name": name}
-        if cls is darsia.OpticalImage and dim == 2 and np.dtype(dtype) in (np.dtype(np.uint8), np.dtype(np.float32)) and n % 3 == 0:
+        if cls is darsia.OpticalImage and dim == 2 and np.dtype(dtype) in (np.dtype(np.uint8), np.dtype(np.float32)) and n % 2 == 0:
             # a colour space reached through the library's own conversion
-            target = ["HLS", "LAB", "HSV", "BGR"][(n // 3) % 4]
+            target = ["HLS", "LAB", "HSV", "BGR"][(n // 2) % 4]
             img.color_space = "RGB"
             try:
                 img.to_trichromatic(target)
